@@ -66,6 +66,10 @@ func (p *FloatingIPPlugin) allocateInSubnetWithKey(oldK, newK, subnet string, at
 	if err != nil {
 		return err
 	}
+	if fip == nil {
+		// e.g. a configuration reload dropped the ip in between
+		return fmt.Errorf("ip allocated to %s from %s during %s is no longer allocated", newK, oldK, when)
+	}
 	glog.Infof("allocated ip %s to %s from %s during %s", fip.IPInfo.IP.String(), newK, oldK, when)
 	return nil
 }
